@@ -5,6 +5,7 @@ import (
 	"fmt"
 	"os"
 	"path/filepath"
+	"sort"
 	"strings"
 )
 
@@ -76,8 +77,20 @@ func (e *Env) flushShard() {
 	var b strings.Builder
 	b.WriteString("From Coq Require Import String.\n")
 	b.WriteString(shardPrelude[e.shardKind])
-	b.WriteString("\nLocal Open Scope string_scope.\nDefinition cases := [\n")
-	b.WriteString(strings.Join(e.shardBuf, ";\n"))
+	b.WriteString("\nLocal Open Scope string_scope.\n")
+	body := strings.Join(e.shardBuf, ";\n")
+	var hs []string
+	for name := range hoisted {
+		if strings.Contains(body, name) {
+			hs = append(hs, name)
+		}
+	}
+	sort.Strings(hs)
+	for _, name := range hs {
+		b.WriteString("Definition " + name + " : " + hoisted[name][0] + " := " + hoisted[name][1] + ".\n")
+	}
+	b.WriteString("Definition cases := [\n")
+	b.WriteString(body)
 	b.WriteString("\n].\n")
 	if shardCheck[e.shardKind] == "RENDER" {
 		b.WriteString("Definition MU := Eval vm_compute in classify (check_render names) cases 0.\nDefinition M := Eval vm_compute in fst MU.\nDefinition U := Eval vm_compute in snd MU.\nPrint M.\nPrint U.\n")
